@@ -155,6 +155,35 @@ def rules(P, R, prefix="C10"):
                 R.judge(bool(pre), prefix + ".P4", key(h, "assembled QC passes process_qc before proposing" + tag, i), n["sp"], "",
                         "an assembled QC is proposed on without first being folded into high_qc")
 
+        # a proposal may also continue later through the payload-wait loop-back, which skips the handler: everything the
+        # handler does with the block's certificates must therefore happen BEFORE the call that can park the block
+        if "Propose" in handlers and pq_fns:
+            h, _ = handlers["Propose"]
+            flow = env.flow(h)
+            ctx = env.ctx(h)
+            mt = msg_param_term(env, h)
+            parks = [n for n in h.nodes() if n["k"] == "mcall" and "consensus::mempool::MempoolDriver::verify" in callee_paths(n)]
+            R.floor(prefix + ".P4", len(parks), 1, "payload check (parking point) in the Propose handler" + tag)
+            for i, n in enumerate(parks):
+                doms = flow.dominators(n)
+                pre_qc = [d for d in doms if d["k"] in ("call", "mcall") and any(p in [g.path for g in pq_fns] for p in callee_paths(d))
+                          and ctx.term(call_args(d)[1]) == mt + ".qc"]
+                R.judge(bool(pre_qc), prefix + ".P4", key(h, "process_qc(&block.qc) before the block can be parked for its payload" + tag, i), n["sp"], "",
+                        "the block can be parked (and later resumed through the loop-back, which skips this handler) before its QC went through "
+                        "process_qc: the node may vote for it without having recorded its QC / advanced past qc.round")
+                tcadv = [x for x in h.nodes() if x["k"] in ("call", "mcall") and any(p in [w.path for w in wf] for p in callee_paths(x))
+                         and ctx.term(call_args(x)[1]).startswith(mt + ".tc")]
+                if tcadv:
+                    # the `if let Some(tc) = block.tc { advance }` statement as a whole precedes the parking point
+                    stmt = tcadv[0]
+                    for a in h.ancestors(tcadv[0]):
+                        if a["k"] == "if":
+                            stmt = a
+                            break
+                    okt = any(d is stmt or d is stmt["c"] or any(y is d for y in ir.walk(stmt["c"])) for d in doms) if stmt["k"] == "if" else any(d is stmt for d in doms)
+                    R.judge(okt, prefix + ".P4", key(h, "TC round advance before the block can be parked" + tag, i), n["sp"], "",
+                            "the block's TC is used to advance the round only after the parking point")
+
         # ---------------- P5 timeout content
         ts = prog.calls_to(TIMEOUT + "::new")
         R.floor(prefix + ".P5", len(ts), 1, "Timeout::new call sites" + tag)
@@ -180,5 +209,6 @@ def check(P, R, tier):
     # "a QC or TC ... assembled from received votes/timeouts": what the aggregator hands to advance_round must be a real
     # certificate (distinct authors, stake >= quorum): C19.G1/G2 and the >= comparison with the threshold (C17.O6)
     from ..common import fold
-    fold(R, P, "c19", ("C19.G1", "C19.G2"), "C10.P7", 6)
+    fold(R, P, "c19", ("C19.G1", "C19.G2", "C19.G4"), "C10.P7", 8)
+    fold(R, P, "c04", ("C04.S2",), "C10.P7", 20)
     fold(R, P, "c17", ("C17.O1", "C17.O6"), "C10.P7", 8)
